@@ -18,6 +18,8 @@ ENCODED = [
     "tdgl.em:_biot_savart_2d_vector",
     "tdgl.em:biot_savart_2d",
     "tdgl.em:convert_field",
+    "tdgl.solution.solution:Solution.field_at_position",
+    "tdgl.solution.solution:Solution.vector_potential_at_position",
     "tdgl.distance:cdist",
     "tdgl.distance:euclidean_distance_2d",
     "tdgl.distance:euclidean_distance_3d",
@@ -35,7 +37,7 @@ ASSUMPTIONS = [
 ]
 OUTSIDE = [
     "current_loop_vector_potential (elliptic integrals scipy.special.ellipk/ellipe: no SMT theory)",
-    "Solution.field_at_position / vector_potential_at_position (assembled from an HDF5-backed solution with pint-wrapped arrays)",
+    "loading the current densities of a Solution from HDF5 (C14); Solution.field_at_position / vector_potential_at_position are executed on an in-memory stand-in for the solution object",
     "compiled numba code (fastmath)",
 ]
 MERGE = True
@@ -47,7 +49,9 @@ def patch_spec(case):
     import tdgl.distance as D
     import tdgl.em as em
 
-    spec = engine.std_patch("tdgl.em", "tdgl.distance")
+    spec = engine.std_patch("tdgl.em", "tdgl.distance", "tdgl.solution.solution")
+    spec["tdgl.solution.solution"]["biot_savart_2d"] = None  # set below (the function object of the patched em module is the same)
+    del spec["tdgl.solution.solution"]["biot_savart_2d"]
     spec["tdgl.em"].update(_biot_savart_2d_z=em._biot_savart_2d_z.py_func, _biot_savart_2d_vector=em._biot_savart_2d_vector.py_func)
     for nm in ("euclidean_distance_2d", "euclidean_distance_3d", "sqeuclidean_distance_2d", "sqeuclidean_distance_3d"):
         spec["tdgl.distance"][nm] = getattr(D, nm).py_func
@@ -59,6 +63,8 @@ def cases(tier, seed):
     out = [Case("kernels", kind="kernels", m=b["sources"], n=b["evaluation_points"], seed=seed)]
     for lu, cu in b["unit_systems"]:
         out.append(Case(f"biot_savart_2d:{lu}:{cu}", kind="units", m=b["sources"], n=b["evaluation_points"], lu=lu, cu=cu, seed=seed))
+    out.append(Case("solution:field_at_position", kind="sol_field", m=b["sources"], n=b["evaluation_points"], seed=seed))
+    out.append(Case("solution:vector_potential_at_position", kind="sol_vecpot", m=b["sources"], n=b["evaluation_points"], seed=seed))
     out.append(Case("cdist", kind="cdist", seed=seed))
     out.append(Case("convert_field", kind="convert", seed=seed))
     return out
@@ -148,6 +154,95 @@ def body_units(H, case):
                     H.prove_eq(f"biot_savart_2d vector [{i},{c}] = SI sum (z0 and all coordinates in metres)", K.at(Bm, i, c), ref[c], timeout=120, scale=1e-30)
             else:
                 H.prove_eq(f"biot_savart_2d scalar [{i}] = SI sum", K.at(Bm, i), ref[2], timeout=120, scale=1e-30)
+
+
+class _FakeSolution:
+    """the attributes Solution.field_at_position / vector_potential_at_position read"""
+
+
+def fake_solution(H, case, z0):
+    from types import SimpleNamespace
+
+    from tdgl.em import ureg
+
+    m = case.m
+    pos, Js, areas, ev = inputs(H, m, case.n)
+    Jn = H.reals2("Jn", m, 2, lo=-3.0, hi=3.0)
+    xi = 0.5
+    sol = _FakeSolution()
+    mesh = SimpleNamespace(areas=areas / xi**2)
+    film = SimpleNamespace(contains_points=lambda p: np.zeros(len(p), dtype=bool))
+    sol.device = SimpleNamespace(ureg=ureg, points=pos, mesh=mesh, coherence_length=xi * ureg("um"), length_units="um",
+                                 layer=SimpleNamespace(z0=z0), film=film)
+    sol.field_units, sol.current_units = "mT", "uA"
+    sol.supercurrent_density = Js * ureg("uA / um")
+    sol.normal_current_density = Jn * ureg("uA / um")
+    return sol, pos, Js, Jn, areas, ev
+
+
+def body_sol_field(H, case):
+    from tdgl.solution.solution import Solution
+
+    z0 = H.real("z0", lo=-0.1, hi=0.1)
+    sol, pos, Js, Jn, areas, ev = fake_solution(H, case, z0)
+    n, m = case.n, case.m
+    parts = Solution.field_at_position(sol, ev, vector=True, units="mT", with_units=False, return_sum=False)
+    total = Solution.field_at_position(sol, ev, vector=True, units="mT", with_units=False, return_sum=True)
+    from tdgl.em import ureg
+
+    to_m, t_to_mT = float(ureg("um").to("m").magnitude), float(ureg("T").to("mT").magnitude)
+    pos3 = H.array2([[K.at(pos, k, 0) * to_m, K.at(pos, k, 1) * to_m, z0 * to_m] for k in range(m)])
+    ev_m = H.array2([[K.at(ev, i, c) * to_m for c in range(3)] for i in range(n)])
+    a_si = H.array([K.at(areas, k) * to_m**2 for k in range(m)])
+    for nm, J, part in (("supercurrent", Js, parts.supercurrent), ("normal current", Jn, parts.normal_current)):
+        J_si = H.array2([[K.at(J, k, c) * 1.0 for c in range(2)] for k in range(m)])  # uA/um = A/m
+        for i in range(n):
+            ref = reference(H, ev_m, pos3, J_si, a_si, i)
+            for c in range(3):
+                H.prove_eq(f"field of the {nm} [{i},{c}] = SI Biot-Savart sum in mT", K.at(part, i, c), t_to_mT * ref[c], timeout=120, scale=1e-30)
+    for i in range(n):
+        for c in range(3):
+            H.prove_eq(f"total field [{i},{c}] = supercurrent part + normal-current part", K.at(total, i, c), K.at(parts.supercurrent, i, c) + K.at(parts.normal_current, i, c), scale=1e-30)
+
+
+def body_sol_vecpot(H, case):
+    from tdgl.em import ureg
+    from tdgl.solution.solution import Solution
+
+    z0 = H.real("z0", lo=-0.1, hi=0.1)
+    sol, pos, Js, Jn, areas, ev = fake_solution(H, case, z0)
+    n, m = case.n, case.m
+    Aapp = H.reals2("Aapp", n, 3, lo=-2.0, hi=2.0)
+
+    class Applied:
+        time_dependent = False
+
+        def __call__(self, x, y, z, **kw):
+            return Aapp
+
+    sol.applied_vector_potential = Applied()
+    units = "mT * um"
+    parts = Solution.vector_potential_at_position(sol, ev, units=units, with_units=False, return_sum=False)
+    total = Solution.vector_potential_at_position(sol, ev, units=units, with_units=False, return_sum=True)
+    # the same two exact factors pint applies: 1/(4 pi) on the magnitude, then the unit conversion of mu_0 uA
+    c1, c2 = 1 / (4 * float(np.pi)), float((1.0 * ureg("mu_0") * ureg("uA")).to(units).magnitude)
+    for key, J in (("supercurrent_density", Js), ("normal_current_density", Jn)):
+        for i in range(n):
+            for c in range(2):
+                ref = 0.0
+                for k in range(m):
+                    dx = K.at(ev, i, 0) - K.at(pos, k, 0)
+                    dy = K.at(ev, i, 1) - K.at(pos, k, 1)
+                    dz = K.at(ev, i, 2) - z0
+                    ref = ref + K.at(J, k, c) * K.at(areas, k) / H.sqrt(dx * dx + dy * dy + dz * dz)
+                got = K.at(parts[key], i, c)
+                H.prove_eq(f"vector potential of {key} [{i},{c}] = mu0/4pi sum K a / |r|", got, (ref * c1) * c2, timeout=120, scale=1e-30)
+            H.prove_eq(f"vector potential of {key} [{i},z] = 0", K.at(parts[key], i, 2), 0.0)
+    for i in range(n):
+        for c in range(3):
+            H.prove_eq(f"applied part [{i},{c}] is the applied vector potential", K.at(parts["applied"], i, c), K.at(Aapp, i, c), scale=1e-30)
+            H.prove_eq(f"total vector potential [{i},{c}] = applied + supercurrent + normal-current parts", K.at(total, i, c),
+                       K.at(parts["applied"], i, c) + K.at(parts["supercurrent_density"], i, c) + K.at(parts["normal_current_density"], i, c), scale=1e-30)
 
 
 def body_cdist(H, case):
